@@ -625,10 +625,12 @@ impl ItsBinder {
                 self.fresh += 1;
                 let payload = self.payload_bytes(act["payload"].as_str().unwrap());
                 let mid = SStr::from_str(&env, &format!("fresh-{}", self.fresh));
+                let src_chain = act.get("srcChain").and_then(|x| x.as_str()).unwrap_or("axelar");
+                let src_addr = if act.get("srcAddr").and_then(|x| x.as_str()).unwrap_or("hub") == "hub" { HUB_ADDR } else { NOT_HUB_ADDR };
                 let m = GwMessage {
-                    source_chain: SStr::from_str(&env, "axelar"),
+                    source_chain: SStr::from_str(&env, src_chain),
                     message_id: mid.clone(),
-                    source_address: SStr::from_str(&env, HUB_ADDR),
+                    source_address: SStr::from_str(&env, src_addr),
                     contract_address: its.clone(),
                     payload_hash: BytesN::from_array(&env, &keccak(&payload)),
                 };
